@@ -29,8 +29,8 @@ CLAIMS.update({
          "calculus and driver soundness are proved once for source and target. For the sequential integer core with try/undo and defeat "
          "calls the compiled code is PROVED to realise the undo semantics end to end (core_try_undo_correct: the Turing jump over the "
          "try body is taken exactly when the body would be defeated; model identical to the real compiler's output, checked every run), "
-         "and so is try/stop with !is_defeat() under any control flow (core_try_stop_correct: variable defeat handler, the body's effects up "
-         "to the defeat call kept, fp/ap restored in the handler). !truth_is_defeat inside try/stop, exits out of try/stop bodies, "
+         "and so is try/stop with !is_defeat() and !truth_is_defeat(c) under any control flow (core_try_stop_correct: variable defeat handler, the body's effects up "
+         "to the defeat call kept, fp/ap restored in the handler). Exits out of try/stop bodies (return/break/continue), "
          "preempt, ??, defeat functions and histories of try blocks in whole programs are validated differentially (history "
          "templates, defeat inside defeat functions, ?? into globals).", "machine-checked proof (Lean 4) of the construct laws + differential validation", "6 C02"),
  'C03': ("proof", "Proof, partial. Proved for the regenerated library and tables, all w>=2: the win/error/fault entry points never halt and "
